@@ -55,6 +55,15 @@ class Worker:
         self.p = subprocess.Popen([binary(self.variant)], stdin=subprocess.PIPE, stdout=subprocess.PIPE, stderr=self.errf,
                                   env=common.san_env(self.env), bufsize=0)
 
+    def diagnostics(self):
+        """Everything the library has written to fd 2 of this worker process so far (the worker itself writes nothing there)."""
+        import os
+        try:
+            n = os.fstat(self.errf.fileno()).st_size
+            return os.pread(self.errf.fileno(), min(n, 1 << 16), 0) if n else b''
+        except OSError:
+            return b''
+
     def close(self):
         if self.p:
             try:
